@@ -191,10 +191,10 @@ reg(
     "C19",
     level="proof",
     technique="contract-based deductive verification: sidecar contracts on the real functions; VCs generated from the Python AST of /repo (pyvc symbolic executor, loop invariants) discharged by z3 (cvc5 cross-check in thorough); Lean 4 + Mathlib bridge lemmas; bounded run-time enforcement of the same contracts as stand-in for undecided / floating-point clauses",
-    text="Deductive: reset() restores exactly the constructor state; solver fields are dead at step 0 (rewritten before read); step counter +1 per call, recompute iff step % k == 0, reuse keeps the stored weights; operand kinds (the former TypeError); max_norm rescaling formula. Obligations are regenerated from /repo's current AST on every run; the level is 'proof' only when every generated obligation is discharged (otherwise the evidence says 'other' and lists the undecided ones). Bounded stand-in (never counted as proved): seeded campaign enforcing the executable rendering of the contract on the real code with an independent oracle; floating-point clauses are decided only there.",
-    note="_solve_optimization / _init_optim_problem are abstracted by contracts when forward is verified; ECOS determinism [T]; 'reset = fresh on every history' on the real code is the exhaustive bounded arm (histories <= 5); floats as reals; CPython set/dict semantics; pyvc soundness; Lean kernel + Mathlib",
+    text="Deductive: reset() restores exactly the constructor state; solver fields are dead at step 0 (rewritten before read); step counter +1 per call, recompute iff step % k == 0, reuse keeps the stored weights; operand kinds (the former TypeError); max_norm rescaling formula; _solve_optimization verified against the contract forward assumes for it (loop invariant: alpha_t is an ndarray of n_tasks entries, never None; writes only prvs_alpha; returns the stored object; parameters receive gtg and the factor); _init_optim_problem builds the cvxpy objects that contract presupposes (n = 2); NashMTL.__init__ passes its parameters through unpermuted and NashMTL.reset resets its own weighting. Obligations are regenerated from /repo's current AST on every run; the level is 'proof' only when every generated obligation is discharged (otherwise the evidence says 'other' and lists the undecided ones). Bounded stand-in (never counted as proved): seeded campaign enforcing the executable rendering of the contract on the real code with an independent oracle; floating-point clauses are decided only there.",
+    note="forward is verified against the contracts of _solve_optimization (itself proved) and _init_optim_problem (proved for n = 2 only: its constraint loop is unrolled); cp.Problem.solve may raise or leave .value None, its numeric result is an uninterpreted term; ECOS determinism [T]; 'reset = fresh on every history' on the real code is the exhaustive bounded arm (histories <= 5); floats as reals; CPython set/dict semantics; pyvc soundness; Lean kernel + Mathlib",
     design_ref="DESIGN.md §3 C19",
-    explanation="reset() restores exactly the constructor state; solver fields are dead at step 0 (rewritten before read); step counter +1 per call, recompute iff step % k == 0, reuse keeps the stored weights; operand kinds (the former TypeError); max_norm rescaling formula.",
+    explanation="reset() restores exactly the constructor state; solver fields are dead at step 0 (rewritten before read); step counter +1 per call, recompute iff step % k == 0, reuse keeps the stored weights; operand kinds (the former TypeError); max_norm rescaling formula; _solve_optimization verified against the contract forward assumes for it (loop invariant: alpha_t is an ndarray of n_tasks entries, never None; writes only prvs_alpha; returns the stored object; parameters receive gtg and the factor); _init_optim_problem builds the cvxpy objects that contract presupposes (n = 2); NashMTL.__init__ passes its parameters through unpermuted and NashMTL.reset resets its own weighting.",
 )
 reg(
     "C20",
